@@ -89,6 +89,10 @@ def eq_vals(types, a, b, st=None):
         body = eq_vals(types, index_array_val(types, a, k), index_array_val(types, b, k), st)
         return z3.ForAll([k], z3.Implies(z3.And(k >= 0, k < n), body))
     if ka == 'slice':
+        if ops.const_val(b.lv[('b',)]) == 0:
+            return a.lv[('b',)] == 0
+        if ops.const_val(a.lv[('b',)]) == 0:
+            return b.lv[('b',)] == 0
         raise OutOfSubset('slice comparison')
     raise OutOfSubset('comparison of kind ' + ka)
 
